@@ -106,6 +106,18 @@ static void run_cmd(kdump_ctx_t *ctx, char *line)
 		at.type = KDUMP_NUMBER; at.val.number = a;
 		st = kdump_set_attr(ctx, key, &at);
 		printf("> set %s%s\n", kstatus_name(st), c16_monitor(ctx, st));
+	} else if (!strncmp(line, "setfn ", 6)) {
+		/* the optional file name used in messages: `setfn -` removes it again */
+		const char *name = strcmp(line + 6, "-") ? line + 6 : NULL;
+		kdump_status st = kdump_set_filename(ctx, name);
+		printf("> setfn %s%s\n", kstatus_name(st), c16_monitor(ctx, st));
+	} else if (!strncmp(line, "reopen ", 7)) {
+		/* another file on the same context (the descriptor stays open until the process ends) */
+		int fd = open(line + 7, O_RDONLY);
+		kdump_status st = kdump_open_fd(ctx, fd);
+		const char *e = kdump_get_err(ctx);
+		printf("> reopen %s msg=%s%s\n", kstatus_name(st), st == KDUMP_OK ? "-" : (e && strstr(e, "file #0")) ? "names-file#0" : "other",
+		       c16_monitor(ctx, st));
 	} else if (!strncmp(line, "setstr ", 7)) {
 		char val[256]; kdump_attr_t at; kdump_status st;
 		if (sscanf(line, "setstr %255s %255s", key, val) != 2) { puts("> bad-op"); return; }
